@@ -425,6 +425,25 @@ fn proportion_sweep(run: &Arc<Run>, seed: u64, thorough: bool) {
                 }
                 Err(p) => l.violation(format!("proportion::is_significant|{}|panic@{}", class, p.location), format!("is_significant({}, {}) panics: {}", n, k, p.message), json!({"entry": "is_significant", "n": n, "k": k}), json!({"panic": p.message})),
             }
+            // the method on a state (the coverage measurement of round six showed it had never been executed): same
+            // answer as the free function of the same counts, no panic, also on states assembled by counting
+            if k <= n {
+                l.eval();
+                l.count("Stats::is_significant judged");
+                let free = caught(|| proportion::is_significant(n, k)).ok();
+                let mut counted = proportion::Stats::default();
+                for i in 0..n.min(200) {
+                    if i < k { counted.add_success() } else { counted.add_failure() }
+                }
+                let free_counted = caught(|| proportion::is_significant(counted.population(), counted.successes())).ok();
+                for (how, got, want) in [("new", caught(|| proportion::Stats::new(n, k).is_significant()), free), ("counted", caught(|| counted.is_significant()), free_counted)] {
+                    match got {
+                        Ok(b) if Some(b) == want => {}
+                        Ok(b) => l.violation(format!("proportion::Stats::is_significant|{}|differs-from-free-function", how), "Stats::is_significant differs from is_significant(population, successes)".to_string(), json!({"entry": "Stats::is_significant", "n": n, "k": k}), json!({"n": n, "k": k, "method": b, "function": want})),
+                        Err(p) => l.violation(format!("proportion::Stats::is_significant|{}|panic@{}", class, p.location), format!("Stats::is_significant panics: {}", p.message), json!({"entry": "Stats::is_significant", "n": n, "k": k}), json!({"panic": p.message})),
+                    }
+                }
+            }
         }
         // ratio front-end with hostile ratios
         for ratio in [0.0, -0.0, -1.0, 1.5, f64::NAN, f64::INFINITY, f64::NEG_INFINITY, 1e300, 5e-324] {
